@@ -253,8 +253,10 @@ def run_group(bu, g, extra_defs=(), label=None):
         gi = ['goto-instrument', '--dfcc', name]
         if g.enforce:
             gi += ['--enforce-contract', g.enforce]
+        present = set(bu.em.funcs) | set(bu.em.protos) | set(bu.em.extra_protos)
         for r in g.replace:
-            gi += ['--replace-call-with-contract', r]
+            if r in present:       # functions compiled out in this configuration (e.g. ASSERT-only helpers) are skipped
+                gi += ['--replace-call-with-contract', r]
         if g.attrs.get('loops') == 'yes':
             gi += ['--apply-loop-contracts']
     elif g.mode == 'loops':
